@@ -1,14 +1,14 @@
 SPECIFICATION Spec
 CONSTANTS
   NG = 2
-  NO = 1
-  ND = 2
+  NO = 2
+  ND = 1
   NP = 1
-  Names = {"a"}
+  Names = {"a", "b"}
   Vals = {1}
-  Acts = {"CreateGroup", "CreateObject", "AddData", "AddToGroup", "Copy2", "Remove2", "RemoveViaWorkspace", "Copy", "Close", "Open"}
+  Acts = {"CreateGroup", "CreateObject", "Copy"}
   Deviations = {"CloseKeepsOrphans"}
-  MaxDepth = 8
+  MaxDepth = 5
 CONSTRAINT DepthBound
 VIEW vw
 INVARIANT TypeOK
